@@ -41,6 +41,11 @@ UNKNOWN_REGEX = re.compile(
 # Recognized register names
 REGISTERS = ["A", "B", "D", "X", "Y", "U", "S", "CC", "DP", "PC"]
 
+# Pattern to recognize the register part of an indexed operand (with auto increment or decrement)
+INDEX_REGISTER_REGEX = re.compile(
+    r"^(-{0,2}[XYUS]|[XYUS]\+{0,2}|PCR)$"
+)
+
 # C L A S S E S ###############################################################
 
 
@@ -501,6 +506,9 @@ class ExtendedIndexedOperand(Operand):
             )
         size = self.instruction.mode.ind_sz
 
+        if self.value.is_leftright() and not INDEX_REGISTER_REGEX.match(self.right):
+            raise OperandTypeError("[{}] invalid index register".format(self.right))
+
         if type(self.value) != str and self.value.is_address():
             size += 2
             return CodePackage(
@@ -649,6 +657,8 @@ class IndexedOperand(Operand):
             raise OperandTypeError(
                 "Instruction [{}] does not support indexed addressing".format(self.instruction.mnemonic)
             )
+        if not INDEX_REGISTER_REGEX.match(self.right):
+            raise OperandTypeError("[{}] invalid index register".format(self.right))
         raw_post_byte = 0x00
         post_byte_choices = []
         size = self.instruction.mode.ind_sz
